@@ -24,6 +24,11 @@
 (*   lastop         history variable: the operation just performed, its    *)
 (*                  arguments and observable result                        *)
 (*   before         history variable: the object before the last operation *)
+(* Pieces are coefficient vectors here; the lane-wise operations (scale,   *)
+(* negate, translate, + and -) are the same for every shipped form once    *)
+(* flattened (Log<P>, IntOfLog<P>, IntOfLogPoly4), which is how the trace  *)
+(* specification applies them to sessions on log-polynomial objects too;   *)
+(* what differs per form is evaluation and integration (PwForms.tla).      *)
 (* The exact next-state functions (ScaleX, NegX, ...) are what the trace   *)
 (* specification composes with the rounding relation to validate recorded  *)
 (* sessions of the real code; the actions below use them as is.            *)
